@@ -77,12 +77,34 @@ class _SubScratch:
 def side_runs(sub: _SubScratch) -> list[tuple[str, core.TlcResult, str]]:
     a = run_tlc(sub, "MC_Wire", wire_cfg("MCOps", "as_is", False, "mini", HOLDING), coverage=True, allow_violation=True, workers=4)
     f = run_tlc(sub, "MC_Wire", wire_cfg("MCOps", "fixed", False, "mini", FIXED_INV), allow_violation=True, workers=4)
-    return [("MC_Wire[as_is,mini,coverage]", a, "as_is"), ("MC_Wire[fixed,mini]", f, "fixed")]
+    return [("MC_Wire[as_is,mini,coverage]", a, "as_is"), ("MC_Wire[fixed,mini]", f, "fixed")] + sched_runs(sub)
+
+
+def sched_cfg(where: str, invariants: list[str]) -> str:
+    inv = "".join(f"INVARIANT {i}\n" for i in invariants)
+    return f"SPECIFICATION Spec\nCONSTANTS\n Calls = {{\"a\", \"b\", \"c\"}}\n Where = {tla(where)}\n{inv}CHECK_DEADLOCK FALSE\n"
+
+
+def sched_runs(sub: _SubScratch) -> list[tuple[str, core.TlcResult, str]]:
+    """specs/MC_WireSched.tla: per-call fidelity under every interleaving of three calls on one transport - holds when the
+    request arguments live in the coroutine frame (the code as it is); the same invariant must FAIL when they live in an
+    attribute of the shared transport, and the schedule the observer realises must be among the explored ones."""
+    ok = run_tlc(sub, "MC_WireSched", sched_cfg("frame", ["TypeOK", "PerCallFidelity", "ExactlyOne"]), coverage=True, allow_violation=True, workers=2)
+    neg = run_tlc(sub, "MC_WireSched", sched_cfg("instance", ["PerCallFidelity"]), allow_violation=True, workers=2)
+    reach = run_tlc(sub, "MC_WireSched", sched_cfg("frame", ["ObserverScheduleReached"]), allow_violation=True, workers=2)
+    return [("MC_WireSched[frame]", ok, "sched_frame"), ("MC_WireSched[instance,must-fail]", neg, "sched_negative"), ("MC_WireSched[frame,reachability]", reach, "sched_reach")]
 
 
 def account_side(chk: Check, name: str, r: core.TlcResult, variant: str) -> None:
     chk.add_tlc(name, r)
     chk.require(r.distinct > 0, f"{name} explored nothing")
+    if variant in ("sched_negative", "sched_reach"):
+        # negative runs: the invariant has to FAIL (shared-attribute design; reachability of the observer's schedule)
+        chk.require(bool(r.violated), f"{name}: the invariant was expected to be violated and is not - the schedule model is vacuous")
+        return
+    if variant == "sched_frame" and not r.violated:
+        for a in ("Enter", "Suspend", "Resume", "Put"):
+            chk.require(r.coverage.get(a, (0, 0))[1] > 0, f"vacuous schedule run: action {a} never taken")
     if r.violated:
         chk.fail("C04.design_invariant", {"invariant": r.violated[0], "variant": variant}, {"run": name}, r.out[-1500:])
     elif variant == "as_is":
@@ -202,7 +224,7 @@ def generate_and_observe(chk: Check, groups: list[list[dict]], label: str, compi
     root = chk.scratch.sub("gen_" + label)
     jobs = [{"id": f"{label}{j}", "root": str(root), "spec": document(g, own_tags=j in compile_only), "pkg": f"p{label}{j}", "core": None, "force": True, "nopp": True} for j, g in enumerate(groups)]
     gres = core.parallel_py(chk.scratch, "harness.w_gen", jobs)
-    ojobs = [{"id": j["id"], "root": j["root"], "pkg": j["pkg"], "core": None, "want": ["compile"] if n in compile_only else ["surface", "wire4"], "max_plans": 8, "max_falsy": 6, "default_headers": DEFAULT_HEADERS} for n, (j, g) in enumerate(zip(jobs, gres)) if g["ok"]]
+    ojobs = [{"id": j["id"], "root": j["root"], "pkg": j["pkg"], "core": None, "want": ["compile"] if n in compile_only else ["surface", "wire4"], "max_plans": 8, "max_falsy": 6, "default_headers": DEFAULT_HEADERS, "pair_stride": 1 if chk.tier == "thorough" else 2} for n, (j, g) in enumerate(zip(jobs, gres)) if g["ok"]]
     ores = {r["id"]: r for r in core.parallel_py(chk.scratch, "harness.w_obs", ojobs, env={"VERIF_OBS_EXTRA": "harness.obs_wire,harness.obs_c04"})} if ojobs else {}
     for r in ores.values():
         if "wire4" in r:
@@ -404,7 +426,8 @@ def request_summary(call: dict) -> dict:
         out["query"] = [{"k": k, "v": v, "c": vclass(v)} for k, v in rq["query"]]
         # the transport's configured default header is not part of the call (C17 judges defaults); anything ELSE that an earlier
         # call of the same client left behind is judged like any other header
-        out["headers"] = [{"k": k.lower(), "v": v, "c": vclass(v)} for k, v in rq["headers"] if [k.lower(), v] not in [[dk.lower(), dv] for dk, dv in DEFAULT_HEADERS.items()]]
+        strip = [[dk.lower(), dv] for dk, dv in DEFAULT_HEADERS.items()] + [list(x) for x in call.get("strip_headers") or []]
+        out["headers"] = [{"k": k.lower(), "v": v, "c": vclass(v)} for k, v in rq["headers"] if [k.lower(), v] not in strip]
         out["cookies"] = [{"k": k, "v": v, "c": vclass(v)} for k, v in rq["cookies"]]
         out["ctype"], out["body"] = body_summary(rq)
     return out
@@ -607,6 +630,10 @@ def judge(chk: Check, items: list[tuple[dict, list[dict]]], label: str, negative
                 chk.cov["traces_validated_against_impl"] += 1
                 chk.cov.setdefault("value_modes", {}).setdefault(rec["_mode"], 0)
                 chk.cov["value_modes"][rec["_mode"]] += 1
+                if rec["_mode"] == "concurrent":
+                    role = rec["_raw"].get("role", "")
+                    chk.cov.setdefault("concurrent_roles", {}).setdefault(role, 0)
+                    chk.cov["concurrent_roles"][role] += 1
                 chk.clause("C04.count", 1)
                 chk.clause("C04.method", a["sent"] and 1)
                 chk.clause("C04.path", a["path"] if a["sent"] else 0)
@@ -845,7 +872,8 @@ def run(chk: Check) -> None:
         chk.require(not missing, f"negative traces never exercised: {missing}")
     for c in CLAUSES:
         chk.require(chk.cov["clauses_checked"].get(c, 0) > 0, f"clause {c} was never evaluated")
-    for m in ("tokens", "falsy", "aliased"):
+    chk.require(chk.cov.get("concurrent_roles", {}).get("suspended", 0) > 0, "no call was ever suspended inside the auth plug-in while another ran")
+    for m in ("tokens", "falsy", "aliased", "concurrent"):
         chk.require(chk.cov.get("value_modes", {}).get(m, 0) > 0, f"no call in value mode {m} was judged")
     if items:
         t, recs = items[len(items) // 3]
